@@ -260,67 +260,89 @@ Proof.
   destruct l as [|x l]; cbn; [now rewrite firstn_nil|]. now rewrite IH.
 Qed.
 
+(* blockEnd is either 0 (search) or the offset just after an LF (what readRawHeaders returns) *)
+Definition block_end_wf (buf : bytes) (blockEnd : nat) : Prop :=
+  blockEnd = 0 \/ exists p s, buf = p ++ LF :: s /\ blockEnd = length p + 1.
+
+Lemma block_end_ok_inv b bE : block_end_ok b bE = Ok true ->
+  3 <= bE /\ bE <= length b /\ nth_error b (bE - 3) = Some LF /\ nth_error b (bE - 2) = Some CR.
+Proof.
+  unfold block_end_ok. destruct (bE <? 3) eqn:E3; [discriminate|]. destruct (length b <? bE) eqn:El; [discriminate|].
+  apply Nat.ltb_ge in E3, El. cbn [orb].
+  destruct (idx_ok b (bE - 3) ltac:(lia)) as (c3 & -> & H3). cbn [bind].
+  destruct (N.eqb c3 LF) eqn:Ec3; [|discriminate]. cbn [negb].
+  destruct (idx_ok b (bE - 2) ltac:(lia)) as (c2 & -> & H2). cbn [bind].
+  intros [= Ec2]. apply N.eqb_eq in Ec3, Ec2. subst. auto.
+Qed.
+
+Lemma block_end_ok_total b bE : exists g, block_end_ok b bE = Ok g.
+Proof.
+  unfold block_end_ok. destruct (bE <? 3) eqn:E3; [cbn; eauto|]. destruct (length b <? bE) eqn:El; [cbn; eauto|].
+  apply Nat.ltb_ge in E3, El. cbn [orb].
+  destruct (idx_ok b (bE - 3) ltac:(lia)) as (c3 & -> & H3). cbn [bind].
+  destruct (negb (N.eqb c3 LF)); [eauto|].
+  destruct (idx_ok b (bE - 2) ltac:(lia)) as (c2 & -> & H2). cbn [bind]. eauto.
+Qed.
+
+Lemma nth_error_split3 (b : bytes) n x y z :
+  nth_error b n = Some x -> nth_error b (S n) = Some y -> nth_error b (S (S n)) = Some z ->
+  firstn (n + 3) b = firstn n b ++ [x; y; z].
+Proof.
+  revert b; induction n as [|n IH]; intros b H1 H2 H3.
+  - destruct b as [|a [|b' [|c b'']]]; cbn in *; try discriminate. congruence.
+  - destruct b as [|a b]; [discriminate|]. cbn in *. f_equal. now apply IH.
+Qed.
+
 Lemma scan_init_spec buf blockEnd :
+  block_end_wf buf blockEnd ->
   exists ir, scan_init buf blockEnd = Ok ir /\
     match ir with
     | IEmpty => has_prefix strCRLF buf = true
-    | IReady b' => exists q z c t, b' = q ++ [CR; LF; CR; LF] /\ buf = b' ++ z /\ b' = c :: t /\ is_sp_ht c = false
+    | IReady b' => exists q z c t, b' = q ++ [LF; CR; LF] /\ buf = b' ++ z /\ b' = c :: t /\ is_sp_ht c = false
     | _ => True
     end.
 Proof.
-  unfold scan_init. destruct (has_prefix strCRLF buf) eqn:Ep; [eexists; split; [reflexivity|cbn; reflexivity]|].
-  assert (Hsearch : exists ob, match index_sub strCRLFCRLF buf with
-                               | None => Ok None
-                               | Some i => do x <- slice buf 0 (i + 4); Ok (Some x)
-                               end = Ok ob /\
-                      match ob with
-                      | Some b' => exists q z, b' = q ++ [CR; LF; CR; LF] /\ buf = b' ++ z
-                      | None => True
-                      end).
-  { destruct (index_sub strCRLFCRLF buf) as [i|] eqn:Ei; [|eexists; split; [reflexivity|exact I]].
-    destruct (index_sub_split _ _ _ Ei) as (pre & suf & E & Hpre).
-    change strCRLFCRLF with [CR; LF; CR; LF] in E.
-    rewrite slice_to by (rewrite E, !app_length; cbn; lia). cbn [bind].
-    assert (Hfn : firstn (i + 4) buf = pre ++ [CR; LF; CR; LF]).
-    { rewrite E, <- Hpre. rewrite firstn_add, firstn_at, skipn_at. reflexivity. }
-    eexists. split; [reflexivity|]. exists pre, suf. split; [exact Hfn|].
-    rewrite Hfn, <- app_assoc. exact E. }
+  intros Hwf. unfold scan_init.
+  destruct (has_prefix strCRLF buf) eqn:Ep; [eexists; split; [reflexivity|cbn; reflexivity]|].
   assert (Hblock : exists ob,
-            (do trusted <- (if (4 <=? blockEnd) && (blockEnd <=? length buf)
-                            then do t <- slice buf (blockEnd - 4) blockEnd; Ok (beq t strCRLFCRLF) else Ok false);
-             do ob <- (if trusted then do x <- slice buf 0 blockEnd; Ok (Some x)
-                       else match index_sub strCRLFCRLF buf with
-                            | None => Ok None
-                            | Some i => do x <- slice buf 0 (i + 4); Ok (Some x)
-                            end);
-             Ok ob) = Ok ob /\
+            (if 0 <? blockEnd
+             then do good <- block_end_ok buf blockEnd;
+                  if good then do x <- slice buf 0 blockEnd; Ok (BlkOk x) else Ok BlkBad
+             else match index_sub strCRLFCRLF buf with
+                  | None => Ok BlkNeed
+                  | Some i => do x <- slice buf 0 (i + 4); Ok (BlkOk x)
+                  end) = Ok ob /\
             match ob with
-            | Some b' => exists q z, b' = q ++ [CR; LF; CR; LF] /\ buf = b' ++ z
-            | None => True
+            | BlkOk b' => exists q z, b' = q ++ [LF; CR; LF] /\ buf = b' ++ z
+            | _ => True
             end).
-  { destruct Hsearch as (obs & Hs1 & Hs2).
-    destruct ((4 <=? blockEnd) && (blockEnd <=? length buf)) eqn:Et.
-    2:{ cbn [bind]. rewrite Hs1. cbn [bind]. eauto. }
-    apply andb_true_iff in Et as [E4 El]. apply Nat.leb_le in E4, El.
-    rewrite slice_ok by lia. cbn [bind].
-    destruct (beq (firstn (blockEnd - (blockEnd - 4)) (skipn (blockEnd - 4) buf)) strCRLFCRLF) eqn:Eb.
-    2:{ rewrite Hs1. cbn [bind]. eauto. }
-    apply beq_eq in Eb. replace (blockEnd - (blockEnd - 4)) with 4 in Eb by lia.
-    rewrite slice_to by lia. cbn [bind]. eexists. split; [reflexivity|].
-    exists (firstn (blockEnd - 4) buf), (skipn blockEnd buf). split.
-    - replace blockEnd with ((blockEnd - 4) + 4) at 1 by lia. rewrite firstn_add, Eb. reflexivity.
-    - symmetry. apply firstn_skipn. }
-  destruct Hblock as (ob & Hob1 & Hob).
-  match goal with |- exists ir, bind ?X ?F = _ /\ _ =>
-    assert (HX : exists tr, X = Ok tr) end.
-  { destruct ((4 <=? blockEnd) && (blockEnd <=? length buf)) eqn:Et; [|eauto].
-    apply andb_true_iff in Et as [E4 El]. apply Nat.leb_le in E4, El.
-    rewrite slice_ok by lia. cbn [bind]. eauto. }
-  destruct HX as [tr HX]. rewrite HX in Hob1 |- *. cbn [bind] in Hob1 |- *.
-  match goal with |- exists ir, bind ?Y ?F = _ /\ _ =>
-    assert (HY : Y = Ok ob) by (destruct Y; cbn [bind] in Hob1; congruence) end.
-  rewrite HY. cbn [bind].
-  destruct ob as [b'|]; [|eexists; split; [reflexivity|exact I]].
+  { destruct (0 <? blockEnd) eqn:Epos.
+    - apply Nat.ltb_lt in Epos.
+      destruct (block_end_ok_total buf blockEnd) as [good Eg]. rewrite Eg. cbn [bind].
+      destruct good; [|eexists; split; [reflexivity|exact I]].
+      destruct (block_end_ok_inv _ _ Eg) as (H3 & Hle & Hn3 & Hn2).
+      rewrite slice_to by exact Hle. cbn [bind]. eexists. split; [reflexivity|].
+      destruct Hwf as [->|(p & s & E & HbE)]; [lia|].
+      assert (Hn1 : nth_error buf (blockEnd - 1) = Some LF).
+      { rewrite E, HbE. replace (length p + 1 - 1) with (length p) by lia.
+        rewrite nth_error_app2 by lia. now rewrite Nat.sub_diag. }
+      exists (firstn (blockEnd - 3) buf), (skipn blockEnd buf). split.
+      + replace blockEnd with ((blockEnd - 3) + 3) at 1 by lia.
+        apply nth_error_split3; [exact Hn3| |].
+        * replace (S (blockEnd - 3)) with (blockEnd - 2) by lia. exact Hn2.
+        * replace (S (S (blockEnd - 3))) with (blockEnd - 1) by lia. exact Hn1.
+      + symmetry. apply firstn_skipn.
+    - destruct (index_sub strCRLFCRLF buf) as [i|] eqn:Ei; [|eexists; split; [reflexivity|exact I]].
+      destruct (index_sub_split _ _ _ Ei) as (pre & suf & E & Hpre).
+      change strCRLFCRLF with [CR; LF; CR; LF] in E.
+      rewrite slice_to by (rewrite E, !app_length; cbn; lia). cbn [bind].
+      assert (Hfn : firstn (i + 4) buf = pre ++ [CR; LF; CR; LF]).
+      { rewrite E, <- Hpre. rewrite firstn_add, firstn_at, skipn_at. reflexivity. }
+      eexists. split; [reflexivity|]. exists (pre ++ [CR]), suf. split.
+      + rewrite Hfn, <- app_assoc. reflexivity.
+      + rewrite Hfn, <- app_assoc. exact E. }
+  destruct Hblock as (ob & -> & Hob). cbn [bind].
+  destruct ob as [| |b']; try (eexists; split; [reflexivity|exact I]).
   destruct Hob as (q & z & Eq & Ez).
   destruct b' as [|c t]; [destruct q; discriminate|].
   destruct (is_sp_ht c) eqn:Ec; [eexists; split; [reflexivity|exact I]|].
@@ -332,17 +354,19 @@ Lemma crlf_prefix_head_len buf : has_prefix strCRLF buf = true -> head_len_aux t
 Proof. intros H. apply has_prefix_split in H as [s ->]. reflexivity. Qed.
 
 Lemma req_parseHeaders_sound cfg no11 buf blockEnd :
+  block_end_wf buf blockEnd ->
   exists res, req_parseHeaders cfg no11 buf blockEnd = Ok res /\
     forall st n, res = PHOk st n -> head_len_aux true CurEmpty buf 0 = Some n.
 Proof.
-  unfold req_parseHeaders.
-  destruct (scan_init_spec buf blockEnd) as (ir & -> & Hir). cbn [bind].
-  destruct ir as [| | |b'].
+  intros Hwf. unfold req_parseHeaders.
+  destruct (scan_init_spec buf blockEnd Hwf) as (ir & -> & Hir). cbn [bind].
+  destruct ir as [| | | |b'].
   - eexists. split; [reflexivity|]. intros st n [= _ <-]. now apply crlf_prefix_head_len.
   - eexists. split; [reflexivity|]. intros ? ? [=].
   - eexists. split; [reflexivity|]. intros ? ? [=].
+  - eexists. split; [reflexivity|]. intros ? ? [=].
   - destruct Hir as (q & z & c & t & Eq & Ez & Ec & Hc).
-    destruct (block_lines q) as (ls & Els & Hinv). rewrite <- Eq in Els.
+    destruct (block_lines_lf q) as (ls & Els & Hinv). rewrite <- Eq in Els.
     pose proof (hd_ok_first b' ls c t Els Ec Hc) as Hhd.
     destruct (req_headers_loop_lines cfg no11 (S (length b')) [] ls rq_init Hinv Hhd) as (res & Hres & Hpost).
     { rewrite <- Els. lia. }
@@ -359,13 +383,14 @@ Lemma resp_parseHeaders_sound cfg no11 code buf :
     forall st n, res = RPHOk st n -> head_len_aux true CurEmpty buf 0 = Some n.
 Proof.
   unfold resp_parseHeaders.
-  destruct (scan_init_spec buf 0) as (ir & -> & Hir). cbn [bind].
-  destruct ir as [| | |b'].
+  destruct (scan_init_spec buf 0 (or_introl eq_refl)) as (ir & -> & Hir). cbn [bind].
+  destruct ir as [| | | |b'].
   - eexists. split; [reflexivity|]. intros st n [= _ <-]. now apply crlf_prefix_head_len.
   - eexists. split; [reflexivity|]. intros ? ? [=].
   - eexists. split; [reflexivity|]. intros ? ? [=].
+  - eexists. split; [reflexivity|]. intros ? ? [=].
   - destruct Hir as (q & z & c & t & Eq & Ez & Ec & Hc).
-    destruct (block_lines q) as (ls & Els & Hinv). rewrite <- Eq in Els.
+    destruct (block_lines_lf q) as (ls & Els & Hinv). rewrite <- Eq in Els.
     pose proof (hd_ok_first b' ls c t Els Ec Hc) as Hhd.
     destruct (resp_headers_loop_lines cfg no11 (S (length b')) [] ls rs_init Hinv Hhd) as (res & Hres & Hpost).
     { rewrite <- Els. lia. }
@@ -398,7 +423,9 @@ Proof.
       destruct (head_len_aux true CurEmpty rest 0) as [rawEnd|] eqn:Eraw.
       2:{ eexists. split; [reflexivity|]. now left. }
       cbn [raw_res].
-      destruct (req_parseHeaders_sound cfg (rl_noHTTP11 l) rest rawEnd) as (ph & -> & Hph). cbn [bind].
+      assert (Hwf : block_end_wf rest rawEnd).
+      { right. destruct (head_len_aux_ends_lf _ _ _ _ _ Eraw) as (p0 & s0 & E0 & EN). exists p0, s0. split; [exact E0|lia]. }
+      destruct (req_parseHeaders_sound cfg (rl_noHTTP11 l) rest rawEnd Hwf) as (ph & -> & Hph). cbn [bind].
       destruct ph as [|e|st n].
       * eexists. split; [reflexivity|]. now left.
       * eexists. split; [reflexivity|]. right. left. eauto.
@@ -481,14 +508,14 @@ Lemma firstn_app_ge {A} (a b : list A) n : length a <= n -> firstn n (a ++ b) = 
 Proof. intros Hl. rewrite firstn_app, firstn_all2 by lia. reflexivity. Qed.
 
 Theorem req_read_local cfg bs H S final final' :
-  HeadComplete H -> crlf_terminated H = true -> length H <= bs ->
+  HeadComplete H -> length H <= bs ->
   req_read cfg bs (H ++ S) final = req_read cfg bs H final'.
 Proof.
-  intros HC G Hbs. pose proof (head_complete_nonempty H HC) as Hne.
+  intros HC Hbs. pose proof (head_complete_nonempty H HC) as Hne.
   unfold req_read. rewrite firstn_app_ge by exact Hbs. rewrite (firstn_all2 H) by exact Hbs.
   set (S' := firstn (bs - length H) S).
   assert (Hp : req_head_parse cfg (H ++ S') = req_head_parse cfg H) by now apply req_head_local_alone.
-  pose proof (req_no_wait cfg H HC G) as Hnw.
+  pose proof (req_no_wait cfg H HC) as Hnw.
   destruct H as [|h0 H0]; [congruence|]. cbn [app].
   unfold req_try_read. change (h0 :: H0 ++ S') with ((h0 :: H0) ++ S'). rewrite Hp.
   destruct (req_head_parse cfg (h0 :: H0)) as [[hd k]| |e| |]; try reflexivity. congruence.
@@ -515,11 +542,11 @@ Proof.
   replace (length q + length p - length p) with (length q) by lia. rewrite skipn_at. apply beq_refl.
 Qed.
 
-Lemma scan_init_needmore rest bE :
+Lemma scan_init_needmore rest :
   head_len_aux true CurEmpty rest 0 = Some (length rest) -> guard_block rest = false ->
-  bE = length rest \/ bE = 0 -> scan_init rest bE = Ok INeedMore.
+  scan_init rest 0 = Ok INeedMore.
 Proof.
-  intros HC G HbE. unfold guard_block in G. apply orb_false_iff in G as [G1 G2].
+  intros HC G. unfold guard_block in G. apply orb_false_iff in G as [G1 G2].
   unfold scan_init.
   destruct (has_prefix strCRLF rest) eqn:Ep.
   { exfalso. pose proof (crlf_prefix_head_len _ Ep) as H2. rewrite HC in H2. injection H2 as H2.
@@ -533,43 +560,7 @@ Proof.
     rewrite E, !app_length in HNle. cbn [length] in HNle.
     destruct suf; [|cbn [length] in HNle; lia].
     rewrite app_nil_r in E. rewrite E, ends_with_intro in G2. discriminate. }
-  assert (Htr : (do trusted <- (if (4 <=? bE) && (bE <=? length rest)
-                                then do t <- slice rest (bE - 4) bE; Ok (beq t strCRLFCRLF) else Ok false);
-                 Ok trusted) = Ok false).
-  { destruct ((4 <=? bE) && (bE <=? length rest)) eqn:Et; [|reflexivity].
-    apply andb_true_iff in Et as [E4 El]. apply Nat.leb_le in E4, El.
-    destruct HbE as [->| ->]; [|lia].
-    rewrite slice_ok by lia. cbn [bind]. f_equal.
-    replace (length rest - (length rest - 4)) with 4 by lia.
-    unfold ends_with in G2. change (length [CR; LF; CR; LF]) with 4 in G2.
-    replace (4 <=? length rest) with true in G2 by (symmetry; apply Nat.leb_le; lia). cbn [andb] in G2.
-    rewrite firstn_all2 by (rewrite skipn_length; lia). exact G2. }
-  destruct (if (4 <=? bE) && (bE <=? length rest) then do t <- slice rest (bE - 4) bE; Ok (beq t strCRLFCRLF) else Ok false)
-    as [tr| |]; cbn [bind] in Htr |- *; try discriminate.
-  injection Htr as ->. rewrite Hnone. reflexivity.
-Qed.
-
-Theorem req_guard_exact cfg H :
-  HeadComplete H -> crlf_terminated H = false ->
-  req_head_parse cfg H = HNeedMore \/ exists e, forall S, req_head_parse cfg (H ++ S) = HErr e.
-Proof.
-  intros HC G.
-  destruct (complete_head H HC) as (line & rest & pre & E & Hne & Hf & Hr & Hfl).
-  rewrite (crlf_terminated_block H pre rest E Hf) in G.
-  destruct (req_line_parse_total line (length pre)) as [fl Efl].
-  assert (Hfirst : forall z, req_parseFirstLine (H ++ z) = Ok fl).
-  { intros z. unfold req_parseFirstLine. rewrite Hfl. cbn [bind].
-    replace (length (H ++ z) - length (rest ++ z)) with (length pre) by (subst H; rewrite !app_length; lia).
-    exact Efl. }
-  destruct fl as [|e|l].
-  - exfalso. exact (req_line_parse_answers _ _ Efl).
-  - right. exists e. intros S. unfold req_head_parse, req_parse_R. rewrite Hfirst. reflexivity.
-  - left. unfold req_head_parse, req_parse_R. rewrite <- (app_nil_r H) at 1. rewrite Hfirst. cbn [bind].
-    rewrite (req_line_parse_len _ _ _ Efl).
-    rewrite slice_from by (subst H; rewrite app_length; lia).
-    assert (Esk : skipn (length pre) H = rest) by (rewrite E; apply skipn_at). rewrite Esk. cbn [bind].
-    rewrite readRawHeaders_spec, Hr. cbn [bind raw_res].
-    unfold req_parseHeaders. rewrite scan_init_needmore by auto. reflexivity.
+  cbn [Nat.ltb Nat.leb]. rewrite Hnone. reflexivity.
 Qed.
 
 Theorem resp_guard_exact cfg H :
